@@ -189,7 +189,8 @@ func (g *gen) lookupName(env *specEnv, name string) (Val, error) {
 	if strings.HasPrefix(name, "$reg:") {
 		rn := name[5:]
 		for k, v := range g.vals {
-			if k.Name() == rn {
+			// registers are named per function: values of inlined callees share the map
+			if k.Name() == rn && (k.Parent() == nil || k.Parent() == g.fn) {
 				return v, nil
 			}
 		}
